@@ -201,10 +201,16 @@ thread_local! {
     pub static LAST_PANIC_LOC: std::cell::RefCell<String> = std::cell::RefCell::new(String::new());
 }
 
+/// location of the most recent panic on ANY thread (for panics that escape a worker thread)
+pub static LAST_PANIC_ANYWHERE: Mutex<String> = Mutex::new(String::new());
+
 /// Silence the default panic output (panics are caught and recorded as violations) but keep the location.
 pub fn install_quiet_panic_hook() {
     std::panic::set_hook(Box::new(|info| {
         let loc = info.location().map(|l| format!("{}:{}", l.file(), l.line())).unwrap_or_default();
+        if let Ok(mut g) = LAST_PANIC_ANYWHERE.try_lock() {
+            *g = loc.clone();
+        }
         LAST_PANIC_LOC.with(|c| *c.borrow_mut() = loc);
     }));
 }
